@@ -78,6 +78,11 @@ META["C20"] = {
   "design_ref": "DESIGN.md §3 C20",
   "note": "Level `other` because part of the statement is bounded; numpy reductions by assumed contracts (listed).",
   "technique": TECH}
+META["C17"] = {
+  "text": "Relevance marking and pruning are under contract and discharged: mark_nodes flags exactly the predecessor chain of its argument (and terminates, using the rank witness of fit's postcondition); predict passes the conqueror of each query to it; prune's selection loops retain exactly the non-IRRELEVANT samples with their own labels, and the final training set / model rows are an increasing re-indexing of the original arrays. `learn` is an open known finding (TypeError on the first validation error), listed in known_findings.json with its witness; the check prints KNOWN-FINDING for it and would report any other failure.",
+  "design_ref": "DESIGN.md §3 C17, §4",
+  "note": "Level `other`: learn's clauses cannot be checked beyond the known finding; prune's callee facts are assumed at its call sites because prune does not establish fit's >= 2 classes precondition.",
+  "technique": TECH}
 ALL = ["C%02d" % i for i in range(1, 21)]
 NOT_APPLICABLE = []
 def _na():
